@@ -617,3 +617,20 @@ Proof.
   apply is_response_iff in Hg. rewrite Hg. cbn [negb].
   exists (rs_now sk' - now), sk'. split; auto.
 Qed.
+
+(* the same at the octet level for tcp(), for the parser used in the correspondence runs *)
+Theorem tcp_answer_on_the_wire tab q qwire timeout it wevs stream revs now m wire t sent sk :
+  tcp (lookup tab) q qwire timeout it wevs stream revs now = Ok (m, wire, t, sent, sk) ->
+  exists b0 b1 b2 b3 tl, wire = b0 :: b1 :: b2 :: b3 :: tl /\
+    b0 * 256 + b1 = m_id q /\ Z.land (b2 * 256 + b3) fQR <> 0 /\ (12 <= length wire)%nat.
+Proof.
+  intros H. apply tcp_returns_genuine in H. destruct H as (Hg & _ & Hp & _).
+  apply from_wire_ok_wellformed in Hp. destruct Hp as (Hsh & He & Hm & _).
+  pose proof (lookup_header_ok tab wire He) as Hh. unfold header_ok in Hh. rewrite Hsh in Hh.
+  apply andb_true_iff in Hh. destruct Hh as [Hl Hh].
+  apply negb_true_iff, Nat.ltb_ge in Hl.
+  destruct wire as [|b0 [|b1 [|b2 [|b3 tl]]]]; cbn [wire_header] in Hh; try discriminate.
+  apply andb_true_iff in Hh. destruct Hh as [Hid Hfl]. apply Z.eqb_eq in Hid, Hfl.
+  destruct Hg as (Hqr & Hi & _). unfold qr_set in Hqr. subst m.
+  exists b0, b1, b2, b3, tl. split; auto. split; [congruence|]. split; [congruence|auto].
+Qed.
